@@ -1,5 +1,6 @@
 """C08: no source text, input or API call sequence can crash the interpreter."""
 from .xsbase import *
+import re
 from . import lib, cells, words
 
 CLASSES = ['N', 'T', 'F', 'I0', 'I1', 'I-1', 'I7fffffffffffffff', 'I8000000000000000', 'Iffffffffffffffff', 'I10000000000000000',
@@ -11,6 +12,7 @@ CLASSES = ['N', 'T', 'F', 'I0', 'I1', 'I-1', 'I7fffffffffffffff', 'I800000000000
            'G(I5,M(S6b=I1))', 'G(I0,M(S6b=I1))', 'G(R0000000000000000,M(S6b=I1))', 'G(B-,M(S6b=I1))', 'G(V(),M(S6b=I1))', 'G(S3132,M(S23666d74=I63))', 'G(I5,M(S23666d74=I0))', 'G(I-1,M(S23666d74=I110))', 'G(V(I1),M(S23666d74=Iffffffffffffffff))',
            'G(S3132,M(S23666d74=I1))', 'G(I1,M(S23666d74=S78))']
 SMALL_ONLY = {'int!', 'uint!', 'random-bits', 'float!', 'float', '>b', '>kb', '>mb'}       # size arguments that allocate
+D19_WORDS = {'get', 'remove', 'insert', 'get-tag', 'remove-tag', 'insert-tag', 'sort', 'with-tags', '%tagmap-end', '%map-end'}
 SOUP_SKIP = {'write-all', 'read-all', 'exec-piped', 'include', 'require', 'random', 'random-bits', 'exit'}
 
 
@@ -45,22 +47,26 @@ class C08(XsProp):
             hw = hexsrc(w if w not in (':', 'var', 'local', 'late', 'const', 'defined', 'see', '!', 'enum', '<name>') else w + ' nm')
             classes = [c for c in CLASSES if not (w in SMALL_ONLY and c.startswith('I') and len(c) > 4)]
             rec = ' | rec on' if rng.random() < 0.33 else ''
+            # compared with the model too (kind xs), except the words whose result depends on the order of keys of different
+            # types (the recorded finding D19 of C12): those run on the implementation only (kind xp)
+            prx = ('xp' if w in D19_WORDS else 'xs') + pre[2:]
             cs.append('%s%s | eval %s | pretty | eval %s | pretty' % (pre, rec, hw, hexsrc('1 2 +')))
             for a in classes:
-                cs.append('%s%s | push %s | eval %s | pretty | dump' % (pre, rec, a, hw))
+                cs.append('%s%s | push %s | eval %s | pretty | dump' % (prx, rec, a, hw))
             for _ in range(npairs):
                 a, b = rng.choice(classes), rng.choice(classes)
                 extra = (' | push %s' % rng.choice(classes)) if rng.random() < 0.3 else ''
-                cs.append('%s%s%s | push %s | push %s | eval %s | pretty' % (pre, rec, extra, a, b, hw))
+                cs.append('%s%s%s | push %s | push %s | eval %s | pretty | stack' % (prx, rec, extra, a, b, hw))
         # (a') every word on the zero-like second operands (plain, negative zero, tagged), which guard divisions, shifts and sizes
         zeros = ['I0', 'G(I0,M(S6b=I1))', 'R0000000000000000', 'R8000000000000000', 'G(R0000000000000000,M(S6b=I1))', 'G(I0,M(S23666d74=I10))']
         firsts = ['I7', 'I-80000000000000000000000000000000', 'R3ff8000000000000', 'G(I5,M(S6b=I1))', 'S3132', 'V(I1,I2,I3)', 'B10100101']
         for w in names:
             if w in SOUP_SKIP or w in (':', 'var', 'local', 'late', 'const', 'defined', 'see', '!', 'enum', '<name>'):
                 continue
+            prx = ('xp' if w in D19_WORDS else 'xs') + pre[2:]
             for a in firsts:
                 for b in zeros:
-                    cs.append('%s | push %s | push %s | eval %s | pretty' % (pre, a, b, hexsrc(w)))
+                    cs.append('%s | push %s | push %s | eval %s | pretty | stack' % (prx, a, b, hexsrc(w)))
         # (b) token soup
         lits = ['0', '1', '-1', '9223372036854775807', '18446744073709551616', '-170141183460469231731687303715884105728', '1.5', '"s"', '"é"',
                 '|ff|', '|x.x|', '[', ']', '{', '}', '#(', '#)', '\\ c\n', '\\( x \\)', 'é', '\x0b', '"abc', '0x', 'nosuch', '^{', '^}']
@@ -104,6 +110,9 @@ class C08(XsProp):
             steps.append('pretty')
             cs.append(' | '.join(steps))
         return cs
+
+    def canon_impl(self, s):
+        return re.sub(r'pretty:\w+', 'pretty:-', s)
 
     def nontrivial(self, line):
         return ' push ' in line or len(line) > 120
